@@ -1,6 +1,6 @@
 // ctl_storage.cpp — controlled-schedule scenarios for reusable_storage_mtsafe (C19): several threads create and
 // finish coroutines of various frame sizes on ONE shared storage; yield points are the busy_x / busy_g / busy_s hooks.
-// engine: st_mtc.   ops: `2 k1 sz1 k2 sz2 ...` one line per thread (k >= 0: create a coroutine of class k whose frame
+// engines: st_mtc, st_mtr (same scenarios with the recycling allocator of storage_common.h).   ops: `2 k1 sz1 k2 sz2 ...` one line per thread (k >= 0: create a coroutine of class k whose frame
 // size is sz; k = -1: finish this thread's oldest live coroutine; k = -2: its newest), `9 c1 c2 ...` the schedule.
 #include "ctl.h"
 #include "storage_common.h"
@@ -45,6 +45,7 @@ static std::vector<Act> sanitize(const std::vector<long> &op) {
 }
 
 static void run_case(const vh::Case &cs) {
+    sh::g_rec.on = cs.engine == "st_mtr";
     std::vector<std::vector<Act>> progs;
     std::vector<long> sched;
     for (auto &op : cs.ops) {
@@ -115,7 +116,7 @@ static void run_case(const vh::Case &cs) {
                     vh::t_count = false;
                     long rel = b.found && b.heap && !sh::g_reg.has(b.base, b.serial);
                     f->live = false;
-                    res[i].push_back({(long)i, j, 2, m.news(), m.dels(), rel, f->ok});
+                    res[i].push_back({(long)i, j, 2, m.news(), m.dels(), rel, f->ok, (long)sh::tl_top_dsz});
                 }
                 j++;
             }
@@ -142,6 +143,8 @@ static void run_case(const vh::Case &cs) {
     st->~S();
     vh::t_count = false;
     vh::print_obs({10, A + m.news(), F + m.dels(), live});
+    sh::g_rec.flush();
+    sh::g_rec.on = false;
 }
 
 int main(int argc, char **argv) {
